@@ -12,31 +12,63 @@ namespace {
 
 // scenario: object A (defined, good) lives through the fault; the window works on object B:
 //   window kinds: 0 create only | 1 create+define(callbacks) | 2 create+define(text) | 3 define+parse (B created and defined before the window: kind 3 = parse only)
+// one symbol gets a name of several hundred characters (the first object put on a name stack is larger than its segment)
+static void elongate(Choices &c, GramDef &gd) {
+  if (gd.raw.rules.empty()) return;
+  std::string from = (c.flip() || gd.raw.terms.empty()) ? gd.raw.rules[0].lhs : gd.raw.terms[0].first;
+  if (from.empty() || !(isalpha((unsigned char)from[0]) || from[0] == '_')) return; // character constants keep their spelling
+  std::string to = from + std::string(400 * c.range(1, 4), 'q');
+  for (auto &t : gd.raw.terms) if (t.first == from) t.first = to;
+  for (auto &r : gd.raw.rules) { if (r.lhs == from) r.lhs = to; for (auto &x : r.rhs) if (x == from) x = to; }
+  if (gd.use_text) {
+    std::string out; const std::string &t = gd.text;
+    auto idch = [](char ch) { return isalnum((unsigned char)ch) || ch == '_'; };
+    for (size_t i = 0; i < t.size();) {
+      if (t[i] == '\'') { size_t j = std::min(t.size(), i + 3); out += t.substr(i, j - i); i = j; continue; }
+      if (idch(t[i])) { size_t j = i; while (j < t.size() && idch(t[j])) j++; std::string w = t.substr(i, j - i); out += (w == from ? to : w); i = j; continue; }
+      out += t[i++];
+    }
+    gd.text = out;
+  }
+}
+
 Case genC17(Choices &c, int tier) {
   Case cs;
   cs.prop = "C17";
   GramOpts o; o.errorPct = 40; o.ambiguityBias = 25;
-  // gram 0: for A; gram 1: for B
+  // gram 0: for A; gram 1: for B (a third of them larger: more and longer rules, i.e. tables whose first row exceeds a segment)
+  bool big = c.chance(35);
   for (int k = 0; k < 2; k++) {
     GramDef gd;
+    GramOpts ok = o;
+    if (k == 1 && big) { ok.maxT = 5; ok.maxN = 8; ok.extraRules = 26; ok.maxRhs = 6; }
     for (int tries = 0; tries < 6; tries++) {
       gd = GramDef();
-      gd.raw = genGrammar(c, o);
+      gd.raw = genGrammar(c, ok);
       gd.strict = 0;
       if (classify(gd.raw, 0).empty()) break;
     }
     cs.grams.push_back(gd);
   }
   int kind = (c.upto(5) + 3) % 6; // exhausted choices -> a parse window
+  // 10 %: object B gets a grammar of hundreds of symbols (its symbol tables grow while it is read); the window is a definition
+  WideInfo wi; bool wide = c.chance(10);
+  if (wide) {
+    GramDef gd; gd.raw = genWideGrammar(c, o, wi, 8); gd.strict = 0;
+    cs.grams[1] = gd; kind = c.flip() ? 1 : 3; cs.par["wide"] = wi.copies;
+  }
   if (kind == 2) cs.grams[1] = genTextGramPublic(c, 0, c.chance(30));
-  if (kind == 1 && c.chance(35)) injectDefectPublic(c, cs.grams[1].raw);
+  if (kind == 1 && !wide && c.chance(35)) injectDefectPublic(c, cs.grams[1].raw);
+  if (!wide && c.chance(20)) { elongate(c, cs.grams[1]); cs.par["longname"] = 1; }
+  if (big) cs.par["big"] = 1;
   cs.par["kind"] = kind;
   for (int k = 0; k < 2; k++) {
     Gram g;
     std::vector<int> codes;
     if (toGram(cs.grams[k].raw, g) && classify(cs.grams[k].raw, cs.grams[k].strict).empty()) {
       std::vector<int> ml = minLen(g);
-      codes = toCodes(g, genInputIdx(c, g, ml, 8, c.chance(55) ? 0 : 1));
+      if (k == 1 && wide) codes = toCodes(g, genWideInput(c, g, ml, wi, 24));
+      else codes = toCodes(g, genInputIdx(c, g, ml, 8, c.chance(55) ? 0 : 1));
     }
     cs.inputs.push_back(codes);
   }
@@ -81,7 +113,7 @@ void runScript(const Case &cs, long failAt, Script &sc) {
     ParseOpts po; po.den_limit = 500;
     Outcome o = runParse(*B, cs.inputs[1], cf, po);
     note("yaep_parse", o.rc, false, false);
-    sc.outB = o.hook.rec_explosion ? "EXPLOSION" : o.tupleStr();
+    sc.outB = o.exploded() ? "EXPLOSION" : o.tupleStr();
     if (o.t_bad_free) sc.problem = "parse_free misuse: " + o.t_bad;
     if (kind >= 4 && failAt == 0) { Outcome o2 = runParse(*B, cs.inputs[1], cf, po); sc.outB += " | " + o2.tupleStr(); }
     else if (kind >= 4) { Outcome o2 = runParse(*B, cs.inputs[1], cf, po); note("yaep_parse(2nd)", o2.rc, false, false); }
@@ -91,7 +123,7 @@ void runScript(const Case &cs, long failAt, Script &sc) {
   // ---- after the window: B can be freed, A is unaffected
   if (bExists) B->destroy();
   delete B;
-  if (aok) { Outcome oa = runParse(*A, cs.inputs[0], cfa); sc.outA = oa.hook.rec_explosion ? "EXPLOSION" : oa.str(); }
+  if (aok) { Outcome oa = runParse(*A, cs.inputs[0], cfa); sc.outA = oa.exploded() ? "EXPLOSION" : oa.str(); }
   A->destroy(); delete A;
   (void)bDefined;
 }
@@ -105,6 +137,9 @@ Verdict runC17(const Case &cs) {
   long K = base.r1 - base.r0;
   v.labels.insert("window:" + std::string(cs.P("kind") == 0 ? "create" : cs.P("kind") == 1 ? "create+read_grammar" : cs.P("kind") == 2 ? "create+parse_grammar" : cs.P("kind") == 3 ? "parse" : "two-parses"));
   if (cs.P("freemode") == 2) v.labels.insert("default-tree-allocator");
+  if (cs.P("longname")) v.labels.insert("b:name-of-400+-characters");
+  if (cs.P("wide")) v.labels.insert("b:wide-grammar(" + std::string(cs.P("wide") >= 100 ? ">=100" : "<100") + "-copies)");
+  if (cs.P("big")) { long pos = 0; for (auto &r : cs.grams[1].raw.rules) pos += r.rhs.size() + 1; v.labels.insert(pos > 62 ? "b:more-than-64-rule-positions" : "b:larger-grammar"); }
   if (base.outB.find("EXPLOSION") != std::string::npos || base.outA == "EXPLOSION") { v.st = V_DISCARD; v.labels.insert("excluded:F27-recovery-explosion"); return v; }
   if (K <= 0) { v.st = V_DISCARD; return v; }
   v.parses = K;
